@@ -232,15 +232,21 @@ func TestC17(t *testing.T) {
 		}
 		return
 	}
-	rapid.Check(t, func(rt *rapid.T) {
-		c := rapid.Custom(genSLCase).Draw(rt, "case")
-		cj := vlib.JSON(c)
-		rec.Begin(cj)
-		msg, nt, classes := runSL(c)
-		rec.End(cj, nt, classes...)
-		if msg != "" {
-			rec.Violation("skiplist_vs_sorted_map", msg, cj, nil)
-			rt.Fatalf("%s", msg)
-		}
-	})
+	rapid.Check(t, propC17)
 }
+
+func propC17(rt *rapid.T) {
+	rec := vlib.For("C17", "TestC17")
+	c := rapid.Custom(genSLCase).Draw(rt, "case")
+	cj := vlib.JSON(c)
+	rec.Begin(cj)
+	msg, nt, classes := runSL(c)
+	rec.End(cj, nt, classes...)
+	if msg != "" {
+		rec.Violation("skiplist_vs_sorted_map", msg, cj, nil)
+		rt.Fatalf("%s", msg)
+	}
+}
+
+// FuzzC17 hands the same property to Go's coverage-guided fuzzer (thorough tier only).
+func FuzzC17(f *testing.F) { f.Fuzz(rapid.MakeFuzz(propC17)) }
